@@ -18,6 +18,25 @@ Definition hdel (k : nat) (h : hdrs) : hdrs := aremove Nat.eqb k h.             
 (* timeouthandler.go:89-92  for k, vv := range tw.h { dst[k] = vv } *)
 Definition hmerge (dst src : hdrs) : hdrs := fold_right (fun kv acc => aset Nat.eqb (fst kv) (snd kv) acc) dst src.
 
+(* The value a handler panics with.  The guards never look inside it, but each of them decides that there IS a
+   panic by `recover() != nil` (recoverhandler.go:13, timeouthandler.go:75, timeoutinterceptor.go:29,
+   crashinterceptor.go handleCrash).  go.mod says `go 1.19`, so the toolchain keeps the pre-1.21 meaning of
+   panic(nil) (GODEBUG panicnil=1 by default): recover() stops the panic and returns nil -- such a panic is
+   invisible to all four tests. *)
+Inductive pvalue :=
+| PVNil                      (* panic(nil) *)
+| PVString                   (* panic("...") / fmt.Sprintf *)
+| PVError                    (* errors.New, fmt.Errorf("%w") *)
+| PVRuntime                  (* runtime.Error raised by faulty code: nil map write, nil dereference, index out of range *)
+| PVStatus (code : nat)      (* an error carrying a gRPC status, e.g. status.Error(codes.NotFound, ...) *)
+| PVAbort                    (* http.ErrAbortHandler *)
+| PVCustom.                  (* any other non-nil value: struct, typed nil pointer, ... *)
+Definition recover_sees (v : pvalue) : bool := match v with PVNil => false | _ => true end.
+(* recoverhandler.go:15  w.WriteHeader(http.StatusInternalServerError) for whatever was recovered *)
+Definition recover_status (v : pvalue) : option Z := if recover_sees v then Some 500 else None.
+(* crashinterceptor.go:30 status.Errorf(codes.Internal, "panic: %v", r) for whatever was recovered *)
+Definition crash_code (v : pvalue) : option nat := if recover_sees v then Some 13%nat else None.
+
 (* what a scripted handler can do with its ResponseWriter; falling off the end of the list is `return` *)
 Inductive action :=
 | SetHeader (k v : nat)
@@ -25,7 +44,7 @@ Inductive action :=
 | DelHeader (k : nat)
 | WriteHeader (c : Z)
 | Write (bs : list nat)
-| PanicA.
+| PanicA (v : pvalue).
 
 (* what the handler sees as the result of one action *)
 Inductive outcome := OOk | OWrote (n : nat) | OErrTimeout (* (0, http.ErrHandlerTimeout) *) | OPanic.
@@ -88,8 +107,11 @@ Definition do_action (t : tw) (a : action) : tw * outcome :=
   | DelHeader k => (tw_set_h t (hdel k (tw_h t)), OOk)
   | WriteHeader c => tw_write_header t c
   | Write bs => tw_write t bs
-  | PanicA => (t, OPanic)
+  | PanicA _ => (t, OPanic)
   end.
+
+(* the value an action panics with (checkWriteHeaderCode panics with a formatted string) *)
+Definition panic_value_of (a : action) : pvalue := match a with PanicA v => v | _ => PVString end.
 
 (* ------------------------------------------------------------------ timeoutHandler.ServeHTTP as an LTS (:54-113) *)
 Inductive cause := CTimeout (* ctx.Err() = DeadlineExceeded *) | CCancel (* context.Canceled *).
@@ -120,9 +142,14 @@ Definition h_step (recover : bool) (s : state) : option state :=
       let tr := st_trace s ++ [o] in
       match o with
       | OPanic =>
+          let seen := recover_sees (panic_value_of a) in
           if recover
-          then Some (mkst t' (st_rw s) HRecover (st_done s) (st_panicked s) (st_fired s) (st_sel s) tr)
-          else Some (mkst t' (st_rw s) HDead (st_done s) true (st_fired s) (st_sel s) tr)       (* :75-77 *)
+          then (* recoverhandler.go:13 `if result := recover(); result != nil`: an unseen panic is swallowed, nothing
+                  is written and the middleware returns normally *)
+               Some (mkst t' (st_rw s) (if seen then HRecover else HRun []) (st_done s) (st_panicked s) (st_fired s) (st_sel s) tr)
+          else (* :75-77 `if p := recover(); p != nil { panicChan <- p }`: an unseen panic ends the goroutine with
+                  neither close(done) nor a send -- only ctx.Done() can wake the select *)
+               Some (mkst t' (st_rw s) HDead (st_done s) seen (st_fired s) (st_sel s) tr)
       | _ => Some (mkst t' (st_rw s) (HRun rest) (st_done s) (st_panicked s) (st_fired s) (st_sel s) tr)
       end
   | HRun [] =>                                                                                     (* :80 close(done) *)
@@ -221,7 +248,7 @@ Definition direct_action (w : rwriter) (a : action) : rwriter * outcome :=
       | [] => if valid_code_nethttp c then (rw_write_header c w, OOk) else (w, OPanic)
       end
   | Write bs => (rw_write bs w, OWrote (List.length bs))
-  | PanicA => (w, OPanic)
+  | PanicA _ => (w, OPanic)
   end.
 
 (* returns (writer, trace, panic propagated to the caller of the chain) *)
@@ -231,8 +258,10 @@ Fixpoint direct_run (recover : bool) (w : rwriter) (acts : list action) (tr : li
   | a :: r =>
       let (w', o) := direct_action w a in
       match o with
-      | OPanic => if recover then (rw_write_header statusInternalServerError w', tr ++ [o], false)
-                  else (w', tr ++ [o], true)
+      | OPanic =>
+          let seen := recover_sees (panic_value_of a) in
+          if recover then ((if seen then rw_write_header statusInternalServerError w' else w'), tr ++ [o], false)
+          else (w', tr ++ [o], seen)     (* what a caller testing `recover() != nil` notices *)
       | _ => direct_run recover w' r (tr ++ [o])
       end
   end.
@@ -296,7 +325,7 @@ Definition codeDeadlineExceeded : nat := 4.
 Definition codeInternal : nat := 13.
 
 (* what the wrapped grpc.UnaryHandler does: returns (resp, err) or panics; err as status code, 0 = nil *)
-Inductive hres := HReturn (resp : option nat) (code : nat) | HPanics.
+Inductive hres := HReturn (resp : option nat) (code : nat) | HPanics (v : pvalue).
 (* what the caller of the interceptor chain gets *)
 Inductive rres := RResult (resp : option nat) (code : nat) | RPropagatedPanic.
 
@@ -314,7 +343,8 @@ Definition rinit (h : hres) : rstate := mkrs (Some h) None false false None None
 Definition rh_step (s : rstate) : option rstate :=
   match rs_pending s with
   | Some (HReturn r c) => Some (mkrs None (Some (r, c)) true (rs_panicked s) (rs_fired s) (rs_out s))
-  | Some HPanics => Some (mkrs None (rs_val s) (rs_done s) true (rs_fired s) (rs_out s))
+  | Some (HPanics v) =>       (* :28-33 `if p := recover(); p != nil { panicChan <- ... }`; close(done) is skipped either way *)
+      Some (mkrs None (rs_val s) (rs_done s) (recover_sees v) (rs_fired s) (rs_out s))
   | None => None
   end.
 Definition rfire_step (c : cause) (s : rstate) : option rstate :=
@@ -354,7 +384,11 @@ Fixpoint rrun (crash : bool) (ls : list label) (s : rstate) : option rstate :=
 Definition rpc_direct (crash : bool) (h : hres) : rres :=
   match h with
   | HReturn r c => RResult r c
-  | HPanics => if crash then RResult None codeInternal else RPropagatedPanic
+  | HPanics v =>
+      if recover_sees v
+      then if crash then RResult None codeInternal else RPropagatedPanic
+      else RResult None codeOK   (* handleCrash's `recover() != nil` is false: the named results stay (nil, nil);
+                                    without Crash: what a caller testing `recover() != nil` notices *)
   end.
 
 (* ------------------------------------------------------------------ several requests through ONE middleware instance *)
